@@ -1,6 +1,8 @@
 package main
 
 import (
+	"go/token"
+
 	"golang.org/x/tools/go/ssa"
 )
 
@@ -124,6 +126,60 @@ func (p *pathCounter) instrEffect(in ssa.Instruction, depth int) vecSet {
 	return p.summary(callee, depth+1)
 }
 
+// definitelyNonNilError: the error a return hands back cannot be nil — it is built there (fmt.Errorf, errors.New, a
+// concrete error value, the repo's error wrapper, which C04-R3 shows never answers nil) or the return sits on the
+// non-nil side of a test of that very value.
+func definitelyNonNilError(c *Ctx, ret *ssa.Return, v ssa.Value) bool {
+	switch x := v.(type) {
+	case *ssa.MakeInterface:
+		return true
+	case *ssa.Call:
+		ci := describeCall(&x.Call)
+		if (ci.Pkg == "fmt" && ci.Name == "Errorf") || (ci.Pkg == "errors" && ci.Name == "New") {
+			return true
+		}
+		if w, _ := errorWrapperOf(c); w != nil && x.Call.StaticCallee() == w {
+			return true
+		}
+	}
+	for _, cf := range condFacts(ret.Block()) {
+		if bo, ok := cf.Cond.(*ssa.BinOp); ok && bo.X == v && isNilConst(bo.Y) {
+			if (bo.Op == token.NEQ && cf.True) || (bo.Op == token.EQL && !cf.True) {
+				return true
+			}
+		}
+	}
+	return false
+}
+
+// splitSummary: what a callee with a trailing error result adds on the paths that hand back a nil error and on those
+// that hand back a non-nil one. A return whose error may be either counts for both. ok=false: not applicable.
+func (p *pathCounter) splitSummary(callee *ssa.Function, depth int) (sNil, sNon vecSet, ok bool) {
+	res := callee.Signature.Results()
+	if res.Len() == 0 || res.At(res.Len()-1).Type().String() != "error" || callee.Blocks == nil || p.inprog[callee] || depth > p.maxDeep {
+		return 0, 0, false
+	}
+	p.inprog[callee] = true
+	per := p.perReturn(callee, depth)
+	delete(p.inprog, callee)
+	for ret, st := range per {
+		if len(ret.Results) != res.Len() {
+			return 0, 0, false
+		}
+		ev := retResult(ret, res.Len()-1)
+		switch {
+		case isNilConst(ev):
+			sNil |= st
+		case definitelyNonNilError(p.c, ret, ev):
+			sNon |= st
+		default:
+			sNil |= st
+			sNon |= st
+		}
+	}
+	return sNil, sNon, true
+}
+
 // perReturn computes the abstract state at each Return of fn.
 func (p *pathCounter) perReturn(fn *ssa.Function, depth int) map[*ssa.Return]vecSet {
 	in := map[*ssa.BasicBlock]vecSet{}
@@ -137,7 +193,33 @@ func (p *pathCounter) perReturn(fn *ssa.Function, depth int) map[*ssa.Return]vec
 		b := work[len(work)-1]
 		work = work[:len(work)-1]
 		st := in[b]
+		// `x, err := helper(...)` … `if err != nil`: what the helper added is correlated with the error it handed back
+		// (it records the failure exactly on the paths that return one). The helper's effect is then applied per edge.
+		var splitCall ssa.Instruction
+		var onTrue, onFalse vecSet
+		if ifi, isIf := b.Instrs[len(b.Instrs)-1].(*ssa.If); isIf {
+			if bo, isBo := ifi.Cond.(*ssa.BinOp); isBo && isNilConst(bo.Y) && (bo.Op == token.NEQ || bo.Op == token.EQL) {
+				if ex, isEx := bo.X.(*ssa.Extract); isEx {
+					if call, isCall := ex.Tuple.(*ssa.Call); isCall && call.Block() == b && p.kind(call) < 0 {
+						callee := call.Call.StaticCallee()
+						if callee != nil && p.c.inRepo(callee) && (p.follow == nil || p.follow(callee)) && ex.Index == callee.Signature.Results().Len()-1 {
+							if sNil, sNon, ok := p.splitSummary(callee, depth+1); ok && (sNil|sNon) != vsZero {
+								splitCall = call
+								if bo.Op == token.NEQ {
+									onTrue, onFalse = sNon, sNil
+								} else {
+									onTrue, onFalse = sNil, sNon
+								}
+							}
+						}
+					}
+				}
+			}
+		}
 		for _, ins := range b.Instrs {
+			if splitCall != nil && ins == splitCall {
+				continue
+			}
 			eff := p.instrEffect(ins, depth)
 			if eff != vsZero {
 				st = vsAdd(st, eff)
@@ -151,6 +233,13 @@ func (p *pathCounter) perReturn(fn *ssa.Function, depth int) map[*ssa.Return]vec
 				continue
 			}
 			est := st
+			if splitCall != nil {
+				if i == 0 {
+					est = vsAdd(st, onTrue)
+				} else {
+					est = vsAdd(st, onFalse)
+				}
+			}
 			if p.edgeFilter != nil {
 				est = p.edgeFilter(b, i, st)
 			}
